@@ -1,7 +1,7 @@
 (* Single extraction unit -> ocaml/model_gen.ml. Directives used: those of ExtrOcamlBasic only
    (bool, option, unit, list, prod, sumbool -> OCaml natives). N/Z/positive stay extracted datatypes. *)
 From Coq Require Extraction ExtrOcamlBasic ExtrOCamlFloats ExtrOCamlInt63.
-From VF Require Import Base.Prelude Generated.Consts C20.Model C19.Model Sheet.Model Sheet.Adjust C16.Model C17.Model C07.Model C08.Machine C08.Model C13.Model Sheet.View C11.Model C12.Model C10.Model C18.Model C14.Model.
+From VF Require Import Base.Prelude Generated.Consts C20.Model C19.Model Sheet.Model Sheet.Adjust C16.Model C17.Model C07.Model C08.Machine C08.Model C13.Model Sheet.View C11.Model C12.Model C10.Model C18.Model C14.Model C03.Merge.
 Extraction Language OCaml.
 Extraction "model_gen.ml"
   Z.add Z.mul Z.sub Z.div Z.modulo Z.opp Z.ltb Z.eqb Z.of_nat Z.to_nat Pos.succ
@@ -20,4 +20,5 @@ Extraction "model_gen.ml"
   C12.Model.open_with C12.Model.fstep C12.Model.close
   C10.Model.render
   C18.Model.dstep C18.Model.daccept
-  C14.Model.check_sheet C14.Model.lookup_guard.
+  C14.Model.check_sheet C14.Model.lookup_guard
+  C03.Merge.merge_step C03.Merge.norm.
